@@ -3,23 +3,37 @@ P = dict(
     variants=['asan'],
     level='exploration',
     technique='runtime monitoring: generated programs of scripted tests run through a private registry with the real MemoryLeakWarningPlugin on the global detector and the real overloaded operators; '
-              'independent ledger oracle (per test: blocks allocated in it and still outstanding, declared expectation, ignore flag, own failures) decides verdict, report content and blame; ASan/UBSan build',
+              'the same programs with the plugin constructed on a detector of its own (scripts allocate through that detector), and with two leak plugins in one registry (one per detector, operations addressed to either, a marker plugin between them attributes each leak failure); '
+              'independent ledger oracle (per test and plugin: blocks of its detector allocated in the test and still outstanding, declared expectation, ignore flag, failures the test already has) decides verdict, report content and blame; ASan/UBSan build',
     rule='cases: whole programs of 1..12 (thorough ..40) tests, each with setup/body/teardown scripts over {alloc(12 operator/malloc kinds) into a slot table shared by all tests, free(slot) incl. blocks of earlier tests, '
          'realloc, realloc with a failing platform realloc, failing checks of 5 kinds, a failure recorded by another plugin in its pre/post action, EXPECT_N_LEAKS(n), IGNORE_ALL_LEAKS_IN_TEST, passing check, temporary block}, 1..3 repetitions of the registry, both overload sets; '
-         'verdict_matrix enumerates completely (#leaked 0..3 x leak phase x expectation unset/0..4 x ignore x own failure none/setup/body/teardown/C-style x released earlier blocks 0..2 x 4 allocation kinds) around a leaking predecessor and clean successors. '
+         'verdict_matrix enumerates completely (#leaked 0..3 x leak phase x expectation unset/0..4 x ignore x own failure none/setup/body/teardown/C-style x released earlier blocks 0..2 x 4 allocation kinds x plugin on the global detector / on its own detector) around a leaking predecessor and clean successors; '
+         'own_detector_programs / two_leak_plugins_programs draw from the same program space with detector configuration 1 (plugin with its own detector) and 2 (two leak plugins, either chain order); '
+         'two_leak_plugins_matrix enumerates completely (#leaked on each detector 0..2 x declaration to each plugin unset/0..2 x ignore to each x own failure x chain order x released predecessor block none/global/own/both). '
          'Non-trivial = program in which some test releases a block of an earlier test while leaving a block of its own outstanding, or executes EXPECT_N_LEAKS(n>0); distinct by program content (hash of all scripts)',
     floor=dict(quick=25000, thorough=350000),
     counter_floor=dict(
         quick=dict(tests_releasing_earlier_and_leaking_own=50000, tests_release_exactly_offsets_leak=15000, verdict_leak_fewer_than_expected=10000, verdict_failed_test_with_outstanding_blocks=15000,
                    verdict_ignore_with_outstanding_blocks=3000, verdict_pass_expected_count_met=8000, report_entries_checked=200000, final_reports_with_leaks=15000, reports_truncated=300,
-                   tests_failed_by_other_plugin_with_outstanding_blocks=2000, realloc_failures_injected=8000, programs_threadsafe_overloads=2000, programs_repeated=2000),
+                   tests_failed_by_other_plugin_with_outstanding_blocks=2000, realloc_failures_injected=8000, programs_threadsafe_overloads=2000, programs_repeated=2000,
+                   programs_plugin_with_own_detector=15000, own_detector_verdicts_with_earlier_tests_blocks_live=40000, own_detector_clean_pass_while_earlier_blocks_live=10000,
+                   own_detector_count_met_while_earlier_blocks_live=2000, own_detector_leak_reports_while_earlier_blocks_live=10000, own_detector_final_reports_with_leaks=8000,
+                   two_plugins_tests_leaking_on_both_detectors=12000, two_plugins_outer_global_verdict_suppressed_by_inner_leak_failure=4000,
+                   two_plugins_outer_own_detector_verdict_suppressed_by_inner_leak_failure=4000, two_plugins_outer_leak_verdict_after_silent_inner=4000),
         thorough=dict(tests_releasing_earlier_and_leaking_own=700000, tests_release_exactly_offsets_leak=200000, verdict_leak_fewer_than_expected=150000, verdict_failed_test_with_outstanding_blocks=200000,
                       verdict_ignore_with_outstanding_blocks=40000, verdict_pass_expected_count_met=100000, report_entries_checked=3000000, final_reports_with_leaks=200000, reports_truncated=4000,
-                      tests_failed_by_other_plugin_with_outstanding_blocks=30000, realloc_failures_injected=100000, programs_threadsafe_overloads=30000, programs_repeated=30000)),
+                      tests_failed_by_other_plugin_with_outstanding_blocks=30000, realloc_failures_injected=100000, programs_threadsafe_overloads=30000, programs_repeated=30000,
+                      programs_plugin_with_own_detector=100000, own_detector_verdicts_with_earlier_tests_blocks_live=300000, own_detector_clean_pass_while_earlier_blocks_live=60000,
+                      own_detector_count_met_while_earlier_blocks_live=15000, own_detector_leak_reports_while_earlier_blocks_live=80000, own_detector_final_reports_with_leaks=60000,
+                      two_plugins_tests_leaking_on_both_detectors=100000, two_plugins_outer_global_verdict_suppressed_by_inner_leak_failure=30000,
+                      two_plugins_outer_own_detector_verdict_suppressed_by_inner_leak_failure=30000, two_plugins_outer_leak_verdict_after_silent_inner=30000)),
     assumptions=['realloc counts as release of the old block plus allocation of a new one inside the test that calls it (new allocation number), as in ISO C',
                  'a block whose platform realloc failed is still the same outstanding block of the test that allocated it',
                  'reports beyond the capacity of the detector\'s fixed text buffer may be cut off ("Too many memory leaks"): then the listed blocks must be a subset and the footer total exact',
                  'leak detection switched off (turnOffNewDeleteOverloads) is outside the quantifier and not generated',
                  'allocation kinds and their releases always match (misuse reports are C06)',
-                 'FinalReport after the program is compared with the blocks still live (keys final-report:*), following the anchors of the property'],
+                 'FinalReport after the program is compared with the blocks still live (keys final-report:*), following the anchors of the property',
+                 'a plugin constructed with its own detector (second constructor argument) is "the leak plugin installed" for the blocks tracked by that detector: the property is demanded per plugin on the blocks of its detector (key suffix :plugin-with-own-detector)',
+                 'with two leak plugins in one registry, a leak failure added by the plugin whose post action runs first counts as "the test already failed" for the other (this is what failureCount_ implements and what the last clause of the property says)',
+                 'verdict_* counters are per plugin verdict: a test under two leak plugins contributes two'],
 )
